@@ -130,7 +130,7 @@ func streamDeadLetters(m *eventMonitor, addr string) int {
 
 func c17Run(c *caseCtx) (res caseResult) {
 	r := c.rng
-	wd := watchdog(c.tier) * 2
+	wd := watchdog(c.tier)
 	addrs := freeAddrs(c, 2)
 	a1, a2 := addrs[0], addrs[1]
 	nT := 1 + r.Intn(6)
